@@ -4,6 +4,11 @@ overlay of every module and require that no check changes its verdict.
 
   rename  : every local variable (assigned in the function, not a parameter / global) of every
             function is renamed consistently (x -> x_rn), nested scopes included
+  hoist   : `return E` -> `ret_N = E; return ret_N`; plain `if T:` -> `cond_N = T; if cond_N:`
+            (hoist-ret / hoist-if apply one of the two)
+  pass    : a `pass` statement at the start of every block
+  methods : the plain methods of every class in reverse order
+  negate  : `if T: A else: B` -> `if not T: B else: A`
   reflow  : the module is re-emitted by ast.unparse (all formatting, comments and line numbers
             change; `# type:` comments are re-attached by unparse for assignments)
 
@@ -84,6 +89,94 @@ def rename_locals(tree):
 DETAIL = {}
 
 
+class Hoister(ast.NodeTransformer):
+    """`return EXPR` -> `ret_N = EXPR; return ret_N` and `if TEST:` -> `cond_N = TEST; if cond_N:`
+    (plain ifs only: an elif test must stay where it is).  Evaluation order is unchanged."""
+
+    def __init__(self, do_if=True, do_ret=True):
+        self.n = 0
+        self.do_if, self.do_ret = do_if, do_ret
+
+    def _body(self, body):
+        out = []
+        for st in body:
+            st = self.visit(st)
+            if self.do_ret and isinstance(st, ast.Return) and st.value is not None and not isinstance(st.value, (ast.Name, ast.Constant)):
+                self.n += 1
+                nm = "ret_%d" % self.n
+                out.append(ast.copy_location(ast.Assign(targets=[ast.Name(id=nm, ctx=ast.Store())], value=st.value), st))
+                st = ast.copy_location(ast.Return(value=ast.Name(id=nm, ctx=ast.Load())), st)
+            elif self.do_if and isinstance(st, ast.If) and not isinstance(st.test, (ast.Name, ast.Constant)) \
+                    and not any(isinstance(x, (ast.NamedExpr, ast.Yield, ast.Await)) for x in ast.walk(st.test)):
+                self.n += 1
+                nm = "cond_%d" % self.n
+                out.append(ast.copy_location(ast.Assign(targets=[ast.Name(id=nm, ctx=ast.Store())], value=st.test), st))
+                st.test = ast.Name(id=nm, ctx=ast.Load())
+            out.append(st)
+        return out
+
+    def generic_visit(self, node):
+        for f in ("body", "orelse", "finalbody"):
+            b = getattr(node, f, None)
+            if isinstance(b, list) and b and isinstance(b[0], ast.stmt):
+                if f == "orelse" and isinstance(node, ast.If) and len(b) == 1 and isinstance(b[0], ast.If):
+                    # elif chain: do not hoist the elif test; still recurse into it
+                    b[0] = self.visit(b[0])
+                    continue
+                setattr(node, f, self._body(b))
+        if isinstance(node, ast.Try):
+            for h in node.handlers:
+                h.body = self._body(h.body)
+        return node
+
+
+class Negator(ast.NodeTransformer):
+    """`if T: A else: B` (B non-empty, not an elif chain) -> `if not T: B else: A`."""
+
+    def visit_If(self, node):
+        self.generic_visit(node)
+        if node.orelse and not (len(node.orelse) == 1 and isinstance(node.orelse[0], ast.If)):
+            t = node.test
+            if isinstance(t, ast.UnaryOp) and isinstance(t.op, ast.Not):
+                nt = t.operand
+            else:
+                nt = ast.UnaryOp(op=ast.Not(), operand=t)
+            node.test = nt
+            node.body, node.orelse = node.orelse, node.body
+        return node
+
+
+class PassInserter(ast.NodeTransformer):
+    """A `pass` at the start of every statement block (after a docstring)."""
+
+    def generic_visit(self, node):
+        super().generic_visit(node)
+        for f in ("body", "orelse", "finalbody"):
+            b = getattr(node, f, None)
+            if isinstance(b, list) and b and isinstance(b[0], ast.stmt) and not isinstance(node, (ast.Module, ast.ClassDef)):
+                if f == "orelse" and isinstance(node, ast.If) and len(b) == 1 and isinstance(b[0], ast.If):
+                    continue
+                k = 1 if (f == "body" and isinstance(node, (ast.FunctionDef, ast.AsyncFunctionDef)) and isinstance(b[0], ast.Expr)
+                          and isinstance(b[0].value, ast.Constant) and isinstance(b[0].value.value, str)) else 0
+                b.insert(k, ast.copy_location(ast.Pass(), b[min(k, len(b) - 1)]))
+        if isinstance(node, ast.Try):
+            for h in node.handlers:
+                h.body.insert(0, ast.copy_location(ast.Pass(), h.body[0]))
+        return node
+
+
+def reverse_methods(tree):
+    """Reverse the order of the plain methods of every class (decorated methods, which may depend on
+    an earlier definition such as a property setter, and all other statements keep their place)."""
+    for n in ast.walk(tree):
+        if isinstance(n, ast.ClassDef):
+            idx = [i for i, st in enumerate(n.body) if isinstance(st, ast.FunctionDef) and not st.decorator_list]
+            vals = [n.body[i] for i in idx][::-1]
+            for i, v in zip(idx, vals):
+                n.body[i] = v
+    return tree
+
+
 def verdicts(repo):
     out = {}
     for p in PROPS:
@@ -111,6 +204,23 @@ def main():
         tree = ast.parse(m.source, type_comments=True)
         if mode == "rename":
             tree = rename_locals(tree)
+        elif mode == "hoist":
+            tree = Hoister().visit(tree)
+            ast.fix_missing_locations(tree)
+        elif mode == "hoist-ret":
+            tree = Hoister(do_if=False).visit(tree)
+            ast.fix_missing_locations(tree)
+        elif mode == "hoist-if":
+            tree = Hoister(do_ret=False).visit(tree)
+            ast.fix_missing_locations(tree)
+        elif mode == "pass":
+            tree = PassInserter().visit(tree)
+            ast.fix_missing_locations(tree)
+        elif mode == "methods":
+            tree = reverse_methods(tree)
+        elif mode == "negate":
+            tree = Negator().visit(tree)
+            ast.fix_missing_locations(tree)
         src = ast.unparse(tree)
         try:
             compile(src, m.relpath, "exec")
